@@ -233,3 +233,48 @@ func c17ObjTerm(obj types.Object) an.Term {
 		return ok && obj != nil && c17ObjOfIdent(f, id) == obj
 	}
 }
+
+// c17BuilderKeeps reads, from the top-level statements of the close
+// transaction builder b, the operator under which each party's output is
+// kept, normalised to the operand order `balance <op> dust limit`. The
+// condition is recognised by what it compares (parameter 3 with 1 for the
+// local output, 4 with 2 for the remote one), in either operand order, written
+// in the if or held by a temporary with a unique definition. The if
+// statements are returned in the order (local, remote).
+func c17BuilderKeeps(b *an.Func) (map[string]token.Token, map[string]*ast.IfStmt) {
+	swapOp := map[token.Token]token.Token{token.GEQ: token.LEQ, token.LEQ: token.GEQ, token.GTR: token.LSS, token.LSS: token.GTR}
+	keeps := map[string]token.Token{}
+	where := map[string]*ast.IfStmt{}
+	for _, st := range b.Body.List {
+		ifs, ok := st.(*ast.IfStmt)
+		if !ok {
+			continue
+		}
+		cond := ast.Unparen(ifs.Cond)
+		if id, ok := cond.(*ast.Ident); ok {
+			if d := b.UniqueDef(id); d != nil {
+				cond = ast.Unparen(d)
+			}
+		}
+		be, ok := cond.(*ast.BinaryExpr)
+		if !ok {
+			continue
+		}
+		if _, cmp := swapOp[be.Op]; !cmp {
+			continue
+		}
+		x, y := ast.Unparen(be.X), ast.Unparen(be.Y)
+		for _, side := range []struct {
+			party     string
+			bal, dust int
+		}{{"Local", 3, 1}, {"Remote", 4, 2}} {
+			switch {
+			case an.Param(side.bal)(b, x) && an.Param(side.dust)(b, y):
+				keeps[side.party], where[side.party] = be.Op, ifs
+			case an.Param(side.dust)(b, x) && an.Param(side.bal)(b, y):
+				keeps[side.party], where[side.party] = swapOp[be.Op], ifs
+			}
+		}
+	}
+	return keeps, where
+}
